@@ -128,6 +128,23 @@ def _model(data, t):
     return dict(n=len(names), names=names, canon=cs, rt=rt, chains=chains, raw=raw, enum_ok=enum_ok)
 
 
+_BIND = {0: 'STB_LOCAL', 1: 'STB_GLOBAL', 2: 'STB_WEAK'}
+_TYPE = {0: 'STT_NOTYPE', 1: 'STT_OBJECT', 2: 'STT_FUNC', 3: 'STT_SECTION', 4: 'STT_FILE', 5: 'STT_COMMON', 6: 'STT_TLS'}
+_VIS = {0: 'STV_DEFAULT', 1: 'STV_INTERNAL', 2: 'STV_HIDDEN', 3: 'STV_PROTECTED'}
+_SHN = {0: 'SHN_UNDEF', 0xfff1: 'SHN_ABS', 0xfff2: 'SHN_COMMON'}
+
+
+def _entry_truth(e):
+    nm, value, size, bind, typ, vis, shndx, loc = e
+    return [nm, value, size, _BIND[bind], _TYPE[typ], _VIS[vis], _SHN.get(shndx, shndx), loc]
+
+
+def _entry_obs(sym):
+    e = sym.entry
+    return [sym.name, e['st_value'], e['st_size'], e['st_info']['bind'], e['st_info']['type'], e['st_other']['visibility'],
+            e['st_shndx'], e['st_other']['local']]
+
+
 def gen_spec(prop, tier, seed, index):
     nc = len(_ST['tables']) * _ST['per_table']
     if index >= nc:
@@ -256,6 +273,12 @@ def execute_spec(spec):
     violations = []
     log = []
     tk = kind + ('@segment' if via_segment else '')
+    dseed = spec['seed'] if isinstance(spec.get('seed'), int) else 0
+
+    def qdisp(i):
+        # cursor displacement before the i-th ground-truth probe: a pure function of the run seed
+        h = h64(dseed, 'truth-displace', i)
+        return None if h % 3 else 1 + (h >> 8) % max(1, len(image))
 
     def viol(what, check, expected, observed, q=None):
         violations.append(dict(key='%s|%s' % (tk, what), check=check, expected=expected, observed=observed, query=q))
@@ -273,6 +296,38 @@ def execute_spec(spec):
         return dict(spec=spec, violations=[], digest=pdigest('unopenable', str(e)[:80]), nontrivial=False, evaluations=1,
                     sim_time=stream.clock.seq, faults={}, probes={'table_not_openable': 1}, sample=None)
 
+    truth = (t.get('desc') or {}).get('truth') or {}
+    if truth.get('entries'):
+        # synthetic image: every field of every entry against what the writer encoded, and the SHT_SYMTAB_SHNDX companion
+        # (the real index of a symbol whose st_shndx is the SHN_XINDEX escape), on the stream under test
+        for i, e in enumerate(truth['entries']):
+            if qdisp(i):
+                stream.displace(qdisp(i))
+            try:
+                got = _entry_obs(symtab.get_symbol(i))
+            except Exception as e2:
+                got = jsonable(exc_obs(e2), 200)
+            if got != _entry_truth(e):
+                viol('entry', 'symbol i has the encoded name, value, size, binding, type, visibility, section index and other bits',
+                     dict(index=i, entry=_entry_truth(e)), got)
+                break
+        if truth.get('xwords') and not via_segment:
+            try:
+                xs = elf.get_section(truth['xindex_section'])
+                linked = getattr(xs, 'symboltable', None)
+                if type(xs).__name__ != 'SymbolTableIndexSection' or linked != t['symtab']:
+                    viol('xindex-section', 'the SHT_SYMTAB_SHNDX section is typed and linked to its symbol table', t['symtab'],
+                         [type(xs).__name__, linked])
+                for i, wv in enumerate(truth['xwords']):
+                    if qdisp(i + 1):
+                        stream.displace(qdisp(i + 1))
+                    got = xs.get_section_index(i)
+                    if got != wv:
+                        viol('xindex', 'extended section index of symbol i read from the companion table', dict(index=i, word=wv), got)
+                        break
+            except Exception as e2:
+                viol('xindex-raised', 'companion index table readable', 'no exception', jsonable(exc_obs(e2), 200))
+        probes['truth_entries_checked'] = len(truth['entries'])
     if not m['enum_ok']:
         viol('enumeration', 'the symbol table yields the encoded names in index order (synthetic image: what the writer encoded)',
              'the encoded names', 'different names or count')
@@ -388,12 +443,14 @@ def describe(prop):
               'optionally the table reached through the dynamic segment of the image without section headers). Queries: present names, '
               'constructed absent names with the same full hash, rejection-sampled absent names in the bucket of a present one, random absent names, '
               'empty and non-ASCII names, names of unhashed symbols. Events (stored bytes): 31-bit hash collision written into an earlier chain word, '
-              'bloom bits set for an absent name. Model: linear scan of the linked table + raw bucket/chain walk. '
+              'bloom bits set for an absent name. Model: linear scan of the linked table + raw bucket/chain walk; on synthetic images (own ELF writer) the ground truth of the writer: '
+              'names, every symbol field (value, size, binding, type, visibility, other bits, section index) and the SHT_SYMTAB_SHNDX companion words. '
               'Non-trivial = the table hashes at least one symbol; distinct by (table, events, query list)'),
-        components=dict(real=['elftools.elf.hash (ELFHashTable/Section, GNUHashTable/Section)', 'elftools.elf.sections.SymbolTableSection',
+        components=dict(real=['elftools.elf.hash (ELFHashTable/Section, GNUHashTable/Section)', 'elftools.elf.sections.SymbolTableSection / SymbolTableIndexSection',
                               'elftools.elf.dynamic.DynamicSegment (symbol access for the section-less form)'],
                         stub=['the OS file object (SimStream with the event overlay)', 'a linker producing colliding names (collision/bloom events are written as stored bytes)']),
-        assumptions=['scope: the lookup and count clauses; that each enumerated symbol equals its encoded bytes is pure decode and not decided here',
+        assumptions=['scope: the lookup and count clauses on every image; that each enumerated symbol equals its encoded bytes (incl. extended section '
+                     'indices) is judged on the synthetic images only, against what their writer encoded',
                      'a symbol whose own chain word was overwritten by an injected collision is excluded from completeness (its stored hash no longer matches its name)',
                      'SysV tables with 8-byte words are skipped'],
         exhaustive={'quick': False, 'thorough': False})
